@@ -391,6 +391,7 @@ func SmallOptions(dir string) badger.Options {
 	o := badger.DefaultOptions(dir)
 	o.Logger = nil
 	o.MemTableSize = 1 << 20
+	o.ValueThreshold = 1 << 10
 	o.BaseTableSize = 1 << 20
 	o.BaseLevelSize = 4 << 20
 	o.ValueLogFileSize = 1 << 20
